@@ -1,2 +1,2 @@
-from bounded import c16_interleavings
-EXTRA_CHECKS = [c16_interleavings.run]
+from bounded import c16_schedules
+EXTRA_CHECKS = [c16_schedules.run]
